@@ -80,8 +80,10 @@ def main():
     rng = np.random.RandomState(1234)
     # ---- design level ------------------------------------------------------------------------
     pos = "Cli_P" if run.quick else "Cli_P4"
-    res = tlc("Cli", pos, timeout=3000)
+    res = tlc("Cli", pos, timeout=3000, coverage=True)
     require_tlc_ok(res, pos)
+    from vcommon import require_coverage
+    run.notes["action_coverage"] = require_coverage(res, ["TakeAny", "ProcessAny"], pos)
     run.add_tlc(res, f"{pos}: Independent ChunksPartition Terminates for every order of every batch, nproc 1..3, all interleavings")
     if pos != "Cli_P":
         res = tlc("Cli", "Cli_P", timeout=600)
